@@ -1,4 +1,5 @@
 import Nstd.Path.Lemmas
+import Nstd.Path.LemmasRel
 /-
   Property C19, path part: theorems about the model of the path functions of File.cpp
   (Nstd/Path/Model.lean) for ALL byte strings.  Spec: Nstd/Path/Spec.lean (`denote`, `render`, `join`).
@@ -140,16 +141,48 @@ theorem base_ext_prefix (p e : Bytes) : ∃ t, getBaseName p [] = getBaseName p 
         rw [this, h5]
       · rw [if_neg h2]; exact ⟨[], by simp, Or.inl rfl⟩
 
-/-
-OPEN: relative_correct — for all `f t`,
-    RelExists f t → denote (join f (getRelativePath f t)) = denote t
-  and  ¬ RelExists f t → getRelativePath f t = []   (empty = "there is no relative path").
-  (the prefix walk of getRelativePath is modelled and run against the implementation for all pairs of
-  strings of length ≤ 4 over {a,b,'.','/','\\'} and random pairs; see Nstd/Path/PropsRel.lean for what is proved.)
--/
+/-- getRelativePath(from, to) appended to `from` denotes `to` — whenever a relative path exists at all
+    (`RelExists`: both absolute or both relative, and `from` does not begin with more `..` than `to`). -/
+theorem relative_correct (f t : Bytes) (h : RelExists f t) :
+    denote (join f (getRelativePath f t)) = denote t :=
+  (getRelativePath_spec f t).1 h
+
+/-- … and when none exists getRelativePath says so by returning the empty string. -/
+theorem relative_none (f t : Bytes) (h : ¬ RelExists f t) : getRelativePath f t = [] :=
+  (getRelativePath_spec f t).2 h
+
+/-- the hypothesis of `relative_correct` is the weakest possible: without it NO string appended to a
+    non-empty `from` denotes `to`. -/
+theorem relative_hypothesis_necessary (f t r : Bytes) (hf : f ≠ []) (h : ¬ RelExists f t) :
+    denote (join f r) ≠ denote t := by
+  intro heq
+  apply h
+  rw [denote_join_ne f r hf] at heq
+  have := foldl_dstep_mono (chunks r) (denote f)
+  rw [heq] at this
+  exact ⟨this.2.symm, this.1⟩
+
+/-- a relative path that exists is never reported as the empty string -/
+theorem relative_nonempty (f t : Bytes) (h : RelExists f t) (hne : f ≠ []) : getRelativePath f t ≠ [] := by
+  intro he
+  have h1 := relative_correct f t h
+  rw [he] at h1
+  have h2 : denote (join f []) = denote f := by
+    rw [denote_join_ne f [] hne]; simp [chunks_nil]
+  rw [h2] at h1
+  -- then from and to denote the same, and getRelativePath answers "."
+  have : simplifyPath f = simplifyPath t := (simplify_eq_iff f t).mpr h1
+  have h3 : getRelativePath f t = [46] := by
+    unfold getRelativePath
+    simp [this]
+  rw [h3] at he
+  exact absurd he (by decide)
 
 /-! non-vacuity / sanity -/
 example : simplifyPath [47, 97, 47, 46, 46] = [47] := by decide
+example : RelExists [97, 47, 98] [97] ∧ getRelativePath [97, 47, 98] [97] = [46, 46] := by decide
+example : RelExists [97] [46, 46, 47, 98] ∧ getRelativePath [97] [46, 46, 47, 98] = [46, 46, 47, 46, 46, 47, 98] := by decide
+example : ¬ RelExists [46, 46] [97] ∧ ¬ RelExists [47, 97] [97] := by decide
 example : getStem [97, 46, 116, 46, 103] [] ++ 46 :: getExtension [97, 46, 116, 46, 103] = [97, 46, 116, 46, 103] := by decide
 
 end Nstd.Path
